@@ -1,4 +1,6 @@
 """C10 — schema and resolver declaration files describe exactly the schema."""
+import re
+
 import vlib
 
 # which known-finding class a failing case of each name-check kind belongs to; the three checks are
@@ -11,31 +13,35 @@ KIND_CLASS = {
 KEYWORDS = {"null", "undefined", "never", "unknown"}
 
 
-def classify(case, kind):
-    if kind != "prop":
-        return set()
-    k = case.get("kind")
-    declared = set(case.get("declared", []))
-    if k == "keyword-names" and declared & KEYWORDS:
-        return {KIND_CLASS[k]}
-    if k == "scalar-identifier-capture" and any(d.startswith("__tmp_") for d in declared):
-        # only the capture by a `__tmp_` local is known; a capture by an un-renamed name would be new
-        import re
-        texts = []
-        for v in case.get("options", {}).get("scalarTypes", {}).values():
-            texts += [v] if isinstance(v, str) else list(v.values())
-        idents = set(i for t in texts for i in re.findall(r"[A-Za-z_][A-Za-z0-9_]*", t))
+def item_failure(item):
+    """mirror of Corr.name_item_ok: None if the item holds, else the known class or 'UNKNOWN'"""
+    k = item.get("kind")
+    declared = set(item.get("declared", []))
+    if k == "keyword-names":
+        return KIND_CLASS[k] if declared & KEYWORDS else None
+    if k == "scalar-identifier-capture":
+        idents = set(i for t in item.get("scalar_texts", []) for i in re.findall(r"[A-Za-z_][A-Za-z0-9_]*", t))
         captured = declared & idents
-        if captured and all(c.startswith("__tmp_") for c in captured):
-            return {KIND_CLASS[k]}
-        return set()
+        if not captured:
+            return None
+        # only the capture by a `__tmp_` local is known; a capture by an un-renamed name would be new
+        return KIND_CLASS[k] if all(c.startswith("__tmp_") for c in captured) else "UNKNOWN"
     if k == "resolver-file-names":
-        o = case.get("options", {})
+        o = item.get("options", {})
         reserved = {"Context", "Omit", "Pick", "Promise", "GraphQLResolveInfo", "__Resolver", "__TypeResolver",
                     o.get("schemaRootNamespace"), o.get("rootResolverType"), o.get("resolverOutputType")}
-        if declared & reserved:
-            return {KIND_CLASS[k]}
-    return set()
+        return KIND_CLASS[k] if declared & reserved else None
+    return "UNKNOWN"
+
+
+def classify(case, kind):
+    if kind != "prop" or case.get("kind") != "names":
+        return set()
+    fails = [item_failure(i) for i in case.get("items", [])]
+    fails = [f for f in fails if f]
+    if not fails or "UNKNOWN" in fails:
+        return set()
+    return set(fails)
 
 
 def run(ctx):
